@@ -394,8 +394,9 @@ fn run(plan: &Plan, ctx: &mut Ctx) -> R {
     // without compression diagrams legitimately blow up (element lists multiply and are never merged) and
     // rsdd sorts elements with a structural pointer order that walks the diagram as a *tree*: handles whose
     // unfolded size exceeds the cap are not used as operands again (cost control, not part of any verdict)
-    let size_cap = plan.get_or("size_cap", if compress { 200_000 } else { 1500 }) as u64;
+    let size_cap = plan.get_or("size_cap", if compress { 200_000 } else { 600 }) as u64;
     let mut tsz_memo: BTreeMap<usize, u64> = BTreeMap::new();
+    let mut tsz_of: Vec<u64> = Vec::new();
     let mut big: Vec<bool> = Vec::new();
 
     let resolve = |arg: i64, caller: usize, own: &Vec<Vec<usize>>, n: usize| -> usize {
@@ -422,7 +423,9 @@ fn run(plan: &Plan, ctx: &mut Ctx) -> R {
         if !matches!(kind, K_VAR | K_CONST | K_REISSUE | K_AUDIT) {
             // resolve first to see whether an operand is too big
             let nops = match kind { K_NEG | K_COND | K_EXISTS => 1, K_ITE => 3, _ => 2 };
-            if (0..nops).any(|j| big[resolve(op.a[j], caller, &own, n)]) {
+            let szs: Vec<u64> = (0..nops).map(|j| tsz_of[resolve(op.a[j], caller, &own, n)]).collect();
+            let product: u64 = szs.iter().fold(1u64, |a, b| a.saturating_mul((*b).max(1)));
+            if (0..nops).any(|j| big[resolve(op.a[j], caller, &own, n)]) || (!compress && product > 60_000) {
                 kind = K_VAR;
                 r.kind = K_VAR;
                 ctx.count("operand-too-big-degraded-to-var", 1);
@@ -522,6 +525,7 @@ fn run(plan: &Plan, ctx: &mut Ctx) -> R {
         {
             let ts = tree_size(p, &mut tsz_memo);
             big.push(ts > size_cap);
+            tsz_of.push(ts);
             ctx.note(|| format!("      (unfolded size of h{hidx}: {ts})"));
         }
         if !p.is_const() && !p.is_var() {
@@ -590,7 +594,14 @@ fn run(plan: &Plan, ctx: &mut Ctx) -> R {
             let q = apply(t, &r, &twin_pool);
             rsdd::verif::set_faults_enabled(was);
             twin_pool.push(q);
-            let (sb, sa) = (sig(p, &mut sig_b), sig(q, &mut sig_a));
+            // with compression the diagram is canonical and must be the very same structure; without it a result is
+            // only determined up to equivalence (a standard triple shares one ITE-cache entry between e.g. or(f,h)
+            // and or(h,f), whose uncompressed structures differ), so only the function can be compared
+            let (sb, sa) = if compress { (sig(p, &mut sig_b), sig(q, &mut sig_a)) } else { (0, 0) };
+            let tq = walk(q, &mut BTreeMap::new());
+            ctx.check("C16", "sdd-twin-same-function", t_raw == tq, || {
+                format!("`{}`: with caches forgetting the result denotes {}, the fault-free twin's result denotes {}", KNAMES[kind as usize], tt::show(t_raw), tt::show(tq))
+            })?;
             ctx.check("C16", "sdd-twin-same-diagram", sb == sa, || {
                 format!("`{}`: builder under test (caches forgetting) returned structure {sb:#x} (tt {}), the fault-free twin returned {sa:#x} (tt {})",
                     KNAMES[kind as usize], tt::show(t_raw), tt::show(walk(q, &mut BTreeMap::new())))
